@@ -289,7 +289,13 @@ def handleLine (st : State) (line : String) : State × String :=
         let ma := p.sanitize b
         let mb := q.sanitize b
         (st, verdict (ma == oa && mb == ob) (hexField ma ++ "/" ++ hexField mb)
-          (if oracleMono oa ob then [] else ["C17", "C07"]) [])
+          -- the comparison re-tokenises both outputs: it is only meaningful when neither policy emits a
+          -- raw-text element, whose content the tokenizer reads as text (script/style under AllowUnsafe,
+          -- iframe, title, textarea, …)
+          (if q.allowUnsafe || p.allowUnsafe ||
+              ([b!"iframe", b!"noembed", b!"noframes", b!"noscript", b!"plaintext", b!"script", b!"style",
+                b!"textarea", b!"title", b!"xmp"].any fun n => allowsElement q n || allowsElement p n) ||
+              oracleMono oa ob then [] else ["C17", "C07"]) [])
       | _, _ => (st, "bad-mono")
     | _, _, _ => (st, "bad-mono")
   | ["time", pid, inp, impl, _us] =>
